@@ -24,6 +24,7 @@ import (
 	gerrors "github.com/acquirecloud/golibs/errors"
 	"github.com/acquirecloud/golibs/kvs"
 	"github.com/acquirecloud/golibs/kvs/inmem"
+	"github.com/alicebob/miniredis/v2/server"
 	"github.com/anishathalye/porcupine"
 
 	"verifharness/internal/hist"
@@ -807,11 +808,20 @@ func longPark(park time.Duration) (sig, what string, stall time.Duration, inconc
 		}
 	}()
 	defer func() { close(stop); stall = time.Duration(worst.Load()) }()
+	// one of the polls is answered slowly by the server (600 ms): the caller's context is alive, nothing
+	// changed, so the waiter must simply keep waiting
+	var gets atomic.Int64
+	rs.MR.Server().SetPreHook(func(_ *server.Peer, cmd string, _ ...string) bool {
+		if cmd == "GET" && gets.Add(1) == 4 {
+			time.Sleep(600 * time.Millisecond)
+		}
+		return false
+	})
 	res := make(chan error, 1)
 	go func() { res <- rs.S.WaitForVersionChange(bg, "lp", r0.Version) }()
 	select {
 	case e := <-res:
-		return "redis/wait/returned-without-change", fmt.Sprintf("a waiter on the current version returned %v although nothing changed", e), 0, ""
+		return "redis/wait/returned-without-change", fmt.Sprintf("a waiter on the current version returned %v although nothing changed and its context is alive (one poll was answered after 600 ms)", e), 0, ""
 	case <-time.After(park):
 	}
 	t0 := time.Now()
